@@ -52,10 +52,16 @@ def rq(rng, lo=1, hi=5, dens=(1, 2, 3)):
     return F(rng.randint(lo, hi), rng.choice(dens))
 
 
-def models(rng):
+FAMILIES = ["anharmonic", "rabi_matrix", "spin_boson", "holstein", "two_fermions", "ladder",
+            "matrix_fd", "operator_mask", "boson_ladder", "ladder_matrix", "ladder_fermion", "spin_fermion",
+            "two_bosons", "three_fermions"]
+
+
+def models(rng, sid=None):
     """Returns dict(modes, r, block, H (order -> r x r matrix of trees or None), rule per block, elim masks)."""
-    kind = rng.choice(["anharmonic", "rabi_matrix", "spin_boson", "holstein", "two_fermions", "ladder",
-                       "matrix_fd", "operator_mask"])
+    kind = rng.choice(FAMILIES)
+    if sid is not None:
+        kind = FAMILIES[(sid - 1) % len(FAMILIES)]     # every family in every run
     w, al, g, h = rq(rng, 2, 5), rq(rng, 1, 2, (3, 5, 7)), rq(rng), rq(rng)
     if kind == "anharmonic":
         modes = [("boson", "a")]
@@ -117,6 +123,65 @@ def models(rng):
         H1 = [[mul(scal(h), add(gen(0), gen(0, 1))), mul(scal(g), gen(0))], [mul(scal(g), gen(0, 1)), None]]
         return dict(kind=kind, modes=modes, r=2, block=[0, 0], H={0: H0, 1: H1}, rules=[dict(kind="tuple")],
                     scalar=False, fd="default", band=1)
+    if kind == "boson_ladder":
+        # a boson exchanging quanta with a charge (ladder) degree of freedom; H_0 depends on both numbers
+        modes = [("boson", "a"), ("ladder", "l")]
+        c, ng = rq(rng, 1, 3, (7, 11)), rq(rng, 1, 2, (3, 5))
+        H0 = [[add(mul(scal(w), num(0)), mul(scal(al), pw(num(0), 2)), mul(scal(c), pw(num(1), 2)),
+                   mul(scal(ng), num(1)))]]
+        ex = add(mul(gen(0, 1), gen(1)), mul(gen(0), gen(1, 1)))
+        co = add(mul(gen(0), gen(1)), mul(gen(0, 1), gen(1, 1)))
+        H1 = [[add(mul(scal(g), ex), mul(scal(h), co)) if rng.random() < 0.5 else mul(scal(g), ex)]]
+        return dict(kind=kind, modes=modes, r=1, block=[0], H={0: H0, 1: H1}, rules=[dict(kind="tuple")],
+                    scalar=True, fd="default", band=1, slack=1)
+    if kind == "ladder_matrix":
+        # two-level system driven through a ladder mode: ladder operators in off-diagonal matrix entries
+        modes = [("ladder", "l")]
+        d, ng = rq(rng, 1, 3, (3, 7)), rq(rng, 1, 2, (5, 11))
+        diag = add(mul(scal(w), pw(num(0), 2)), mul(scal(ng), num(0)))
+        H0 = [[add(scal(d), diag), None], [None, add(scal(-d), diag)]]
+        up = add(mul(scal(g), gen(0)), mul(scal(h), gen(0, 1))) if rng.random() < 0.6 else mul(scal(g), gen(0))
+        H1 = [[None, up], [("dag", up), None]]
+        return dict(kind=kind, modes=modes, r=2, block=[0, 1], H={0: H0, 1: H1},
+                    rules=[dict(kind="none"), dict(kind="none")], scalar=False, fd="none", band=1)
+    if kind == "ladder_fermion":
+        modes = [("ladder", "l"), ("fermion", "c")]
+        e, ng = rq(rng, 1, 3, (3, 7)), rq(rng, 1, 2, (5, 11))
+        H0 = [[add(mul(scal(w), pw(num(0), 2)), mul(scal(ng), num(0)), mul(scal(e), num(1)))]]
+        tun = add(mul(gen(1), gen(0, 1)), mul(gen(1, 1), gen(0)))
+        H1 = [[add(mul(scal(g), tun), mul(scal(h), num(1), add(gen(0), gen(0, 1)))) if rng.random() < 0.5
+               else mul(scal(g), tun)]]
+        return dict(kind=kind, modes=modes, r=1, block=[0], H={0: H0, 1: H1}, rules=[dict(kind="tuple")],
+                    scalar=True, fd="default", band=1)
+    if kind == "spin_fermion":
+        modes = [("spin", "s"), ("fermion", "c"), ("fermion", "d")]
+        e1, e2, d = rq(rng, 1, 3, (3,)), rq(rng, 2, 5, (7,)), rq(rng, 1, 3, (11,))
+        H0 = [[add(mul(scal(d), num(0)), mul(scal(e1), num(1)), mul(scal(e2), num(2)))]]
+        flip = add(mul(gen(0), gen(1, 1), gen(2)), mul(gen(2, 1), gen(1), gen(0, 1)))
+        odd = add(mul(gen(0), gen(1)), mul(gen(1, 1), gen(0, 1)))
+        H1 = [[add(mul(scal(g), flip), mul(scal(h), odd))]]
+        return dict(kind=kind, modes=modes, r=1, block=[0], H={0: H0, 1: H1}, rules=[dict(kind="tuple")],
+                    scalar=True, fd="default", band=1)
+    if kind == "two_bosons":
+        modes = [("boson", "a"), ("boson", "b")]
+        w2, u = rq(rng, 2, 5, (7,)), rq(rng, 1, 2, (11, 13))
+        H0 = [[add(mul(scal(w), num(0)), mul(scal(w2), num(1)), mul(scal(al), pw(num(0), 2)),
+                   mul(scal(u), num(0), num(1)))]]
+        bs = add(mul(gen(0, 1), gen(1)), mul(gen(1, 1), gen(0)))
+        sq2 = add(mul(gen(0), gen(1)), mul(gen(0, 1), gen(1, 1)))
+        H1 = [[add(mul(scal(g), bs), mul(scal(h), sq2)) if rng.random() < 0.5 else mul(scal(g), bs)]]
+        return dict(kind=kind, modes=modes, r=1, block=[0], H={0: H0, 1: H1}, rules=[dict(kind="tuple")],
+                    scalar=True, fd="default", band=1, slack=1)
+    if kind == "three_fermions":
+        modes = [("fermion", "c"), ("fermion", "d"), ("fermion", "e")]
+        e1, e2, e3, u = rq(rng, 1, 3, (3,)), rq(rng, 2, 5, (7,)), rq(rng, 1, 4, (11,)), rq(rng, 1, 2, (5,))
+        H0 = [[add(mul(scal(e1), num(0)), mul(scal(e2), num(1)), mul(scal(e3), num(2)), mul(scal(u), num(0), num(2)))]]
+        hop = add(mul(gen(0, 1), gen(2)), mul(gen(2, 1), gen(0)))
+        pair = add(mul(gen(0), gen(2)), mul(gen(2, 1), gen(0, 1)))
+        pair2 = add(mul(gen(1), gen(2)), mul(gen(2, 1), gen(1, 1)))
+        H1 = [[add(mul(scal(g), hop), mul(scal(h), pair), mul(scal(rq(rng)), pair2))]]
+        return dict(kind=kind, modes=modes, r=1, block=[0], H={0: H0, 1: H1}, rules=[dict(kind="tuple")],
+                    scalar=True, fd="default", band=1)
     # operator_mask: eliminate only the terms with the listed operator powers
     modes = [("boson", "a")]
     H0 = [[add(mul(scal(w), num(0)), mul(scal(al), pw(num(0), 2)))]]
@@ -142,14 +207,15 @@ def build_session(sid, seed, N):
 
     rng = common.rng_for(seed, "C07", sid)
     p = common.P1
-    m = models(rng)
+    m = models(rng, sid)
     margin = N * m["band"]
+    slack = m.get("slack", 3)        # interior occupations per unbounded mode beyond the margin
     modes = []
     for kind, name in m["modes"]:
         if kind == "boson":
-            modes.append(dict(kind=kind, name=name, lo=0, hi=min(10, margin + 3)))
+            modes.append(dict(kind=kind, name=name, lo=0, hi=min(10, margin + slack)))
         elif kind == "ladder":
-            modes.append(dict(kind=kind, name=name, lo=-(margin + 2), hi=margin + 2))
+            modes.append(dict(kind=kind, name=name, lo=-(margin + min(slack, 2)), hi=margin + min(slack, 2)))
         else:
             modes.append(dict(kind=kind, name=name, lo=0, hi=1))
     ops = core_nof.sympy_ops(modes)
@@ -268,7 +334,7 @@ def run(pid, tier, seed, replay=None):
     t0 = time.time()
     quick = tier == "quick"
     N = 2 if quick else 3
-    n = 16 if quick else 120
+    n = 28 if quick else 140
     ids = list(range(1, n + 1)) if replay is None else [replay["sid"]]
     if replay is not None:
         seed, N = replay["seed"], replay["N"]
